@@ -589,6 +589,14 @@ func (c *SpecCtx) selector(n *ast.SelectorExpr) SV {
 		return c.bad("selector base %T", xv.V)
 	}
 	key := e.structKey(pt)
+	if isOpaqueStruct(pt) && pt == xv.T && strings.HasPrefix(string(base.So), "X_") {
+		// a field of an opaque (external) struct value: the same uninterpreted projection the executor uses
+		for i := 0; i < s.NumFields(); i++ {
+			if f := s.Field(i); f.Name() == n.Sel.Name {
+				return SV{V: e.subFieldGet(c.st, pt, base, f.Name(), f.Type()), T: f.Type()}
+			}
+		}
+	}
 	for i := 0; i < s.NumFields(); i++ {
 		f := s.Field(i)
 		if f.Name() != n.Sel.Name {
@@ -1068,6 +1076,32 @@ func (c *SpecCtx) call(n *ast.CallExpr) SV {
 			ty = cell.Typ
 		}
 		return SV{V: v, T: ty}
+	case "ctxdone":
+		// ctxdone(ctx): the channel ctx.Done() returns
+		x := c.coerceTo(c.eval(n.Args[0]), SAny)
+		ch := App(SChan, e.namedFun("ctxdone", []Sort{SAny}, SChan), x)
+		e.doneOf[ch.S] = x
+		return SV{V: ch}
+	case "athead":
+		// athead(N, x): value of local x at the head of loop N when the current iteration started
+		if c.fr == nil {
+			return c.bad("athead outside a function")
+		}
+		nn := c.intArg(n.Args[0])
+		snap, _ := c.st.Ghost[fmt.Sprintf("loophead:%s:%s", e.fnName[c.fr.Fn], nn.S)].(map[string]Val)
+		id, ok := n.Args[1].(*ast.Ident)
+		if snap == nil || !ok {
+			return c.bad("athead: loop %s not entered on this path", nn.S)
+		}
+		v, ok := snap[id.Name]
+		if !ok {
+			return c.bad("athead: no local %s at the loop head", id.Name)
+		}
+		var ty types.Type
+		if cell, ok := c.fr.Cells[id.Name]; ok {
+			ty = cell.Typ
+		}
+		return SV{V: v, T: ty}
 	case "now":
 		// now(x): the current value of a parameter or local (parameters otherwise denote their entry values)
 		sub := c.sub()
@@ -1290,6 +1324,7 @@ var reflectUF = map[string]ufSig{
 	"rv_iface": {[]Sort{"X_reflect.Value"}, SAny}, "rv_of": {[]Sort{SAny}, "X_reflect.Value"},
 	"rv_elem":    {[]Sort{"X_reflect.Value"}, "X_reflect.Value"},
 	"rv_pointer": {[]Sort{"X_reflect.Value"}, SInt},
+	"rv_zero":    {[]Sort{SAny}, "X_reflect.Value"},
 }
 
 // SpecDef: `def name(params) = expr` in a type block.
